@@ -722,6 +722,32 @@ theorem mappingInvert_map_spec (mp : Mapping) (hm : mp.mirror = []) (p a : Int) 
   refine ⟨h1, ?_⟩
   rw [map_eq_mapResult _ (by rw [invert_to, invert_maps]; simp), h1]; rfl
 
+/-- **inversion is an involution** (up to the bounds, which `invert` resets): inverting twice gives
+    back the maps, the mirror partnerships, and a mapping that maps like the original read as a whole -/
+theorem mappingInvert_involutive (mp : Mapping) (h : MirrorFunctional mp) :
+    mp.invert.invert.maps = mp.maps ∧
+    (∀ j, j < mp.maps.length → mp.invert.invert.getMirror j = mp.getMirror j) ∧
+    (∀ p a, mp.invert.invert.mapResult p a = (mp.slice 0).mapResult p a) :=
+  ⟨invert_invert_maps mp, invert_invert_getMirror mp h, invert_invert_mapResult mp h⟩
+
+/-- `append_mapping_inverted`, composition law for `Mapping.map` -/
+theorem appendMappingInverted_map_spec_pos (m n : Mapping) (hm : MirrorFunctional m) (hn : MirrorFunctional n)
+    (hne : n.maps ≠ []) (hf : m.from_ ≤ m.maps.length) (p a : Int) :
+    (m.appendMappingInverted n).map p a =
+      ((m.slice m.from_).map p a).bind (fun q => n.invert.map q a) := by
+  have hto : (m.appendMappingInverted n).to ≤ (m.appendMappingInverted n).maps.length := by
+    rw [(appendMappingInverted_mirror m n).2.2, appendMappingInverted_maps]
+    have : n.maps.length ≠ 0 := fun h => hne (List.eq_nil_of_length_eq_zero h)
+    simp [this]
+  rw [map_eq_mapResult _ hto, appendMappingInverted_map_spec m n hm hn hne hf,
+    map_eq_mapResult (m.slice m.from_) (Nat.le_refl _)]
+  cases (m.slice m.from_).mapResult p a with
+  | none => rfl
+  | some r1 =>
+    simp only [Option.bind_some, Option.map_some, Option.map_map]
+    rw [map_eq_mapResult n.invert (by rw [invert_to, invert_maps]; simp)]
+    cases n.invert.mapResult r1.pos a <;> rfl
+
 /-! ### round trip of a whole mapping through its inverse -/
 
 private theorem insideResult_flags_ne_zero (q : Quad) (i : Nat) (pos a : Int) :
